@@ -132,6 +132,10 @@ SYS_QUICK += [
     dict(name='drain+user-control', H=3600, dur=2 * 3600, qset=[-0.02], tank_link='pipe_in', time_control=True),
     dict(name='volcurve-rerun', H=3600, dur=3600, qset=[0.02, -0.02], tank_link='pipe_in', vol_curve=True, rerun_with_edited_curve=True),
 ]
+SYS_QUICK += [
+    # rule grid finer than, and not dividing, the hydraulic step (the loop visits every rule instant inside a step)
+    dict(name='fill-rule-grid-off', H=900, R=360, dur=1800, qset=[0.02, -0.01], tank_link='pipe_in'),
+]
 SYS_THOROUGH = SYS_QUICK + [
     dict(name='mixed3', H=3600, dur=3 * 3600, qset=[-0.03, 0.0, 0.03], tank_link='pipe_in'),
     dict(name='drain-grid', H=1800, dur=2 * 3600, qset=[-0.04, 0.0], tank_link='pipe_out', report=3600),
@@ -237,6 +241,9 @@ def replay_system(i):
         warnings.simplefilter('ignore')
         res = _realise(wn, cfg, qs)
         if cfg.get('rerun_with_edited_curve') and not isinstance(res, str):
+            msg = _judge(res, wn, cfg, x)          # the first run counts too
+            if msg:
+                return 'first run: ' + msg
             qs2, k = [], 0
             while 'choice:second_q%d' % k in i:
                 qs2.append(float(i['choice:second_q%d' % k]))
@@ -246,6 +253,18 @@ def replay_system(i):
             res = _realise(wn, cfg, qs2, pat='real2')
     if isinstance(res, str):
         return res
+    return _judge(res, wn, cfg, x)
+
+
+class _Both:
+    """two real runs of one scenario: the forced-inflow one up to where its controls started flipping, and the one with a return path"""
+    def __init__(self, first, second):
+        self.first, self.second = first, second
+
+
+def _judge(res, wn, cfg, x):
+    if isinstance(res, _Both):
+        return _judge(res.first, wn, cfg, x) or _judge(res.second, wn, cfg, x)
     curve = list(wn.get_curve('VC').points) if cfg.get('vol_curve') else None
     lv = res.node['pressure']['T']
     dm = res.node['demand']['T']
@@ -294,8 +313,19 @@ def _realise(wn, cfg, qs, pat='real'):
     j1 = wn2.get_node('J1')
     j1.demand_timeseries_list.clear()
     j1.add_demand(1.0, pat)
+    import warnings as _w
     try:
-        return wntr.sim.WNTRSimulator(wn2).run_sim()
+        with _w.catch_warnings(record=True) as caught:
+            _w.simplefilter('always')
+            res = wntr.sim.WNTRSimulator(wn2).run_sim()
+        if any('maximum number of trials' in str(c.message) for c in caught) and any(q > 0 for q in seq):
+            # forced inflow has nowhere to go once the tank closes at its maximum level: let the surplus return to the reservoir
+            # (the tank inflow is then whatever the hydraulics give; the judge only looks at what the run reports)
+            wn2.get_link('P1').initial_status = 'OPEN'
+            wn2.get_link('P1')._user_status = wntr.network.LinkStatus.Open
+            wn2.reset_initial_values()
+            res = _Both(res, wntr.sim.WNTRSimulator(wn2).run_sim())
+        return res
     except Exception as ex:
         return 'run_sim raised %s: %s' % (type(ex).__name__, ex)
 
